@@ -2855,10 +2855,11 @@ class TypeBlocks(ContainerOperand):
                             slice_condition=slice_condition
                             ):
 
+                        # NOTE: fill the (view of the) slice: assigning would read a tuple element as a sequence
                         if ndim == 1:
-                            assigned[target_slice] = value
+                            assigned[target_slice].fill(value)
                         else:
-                            assigned[target_slice, i] = value
+                            assigned[target_slice, i].fill(value)
 
                 assigned.flags.writeable = False
                 yield assigned
@@ -2983,7 +2984,8 @@ class TypeBlocks(ContainerOperand):
 
                             # update with full length or limited length?
                             bridging_count[idx] += sided_len # type: ignore
-                            assigned[idx, sel_slice] = bridging_values[idx] #pylint: disable=E1136
+                            # NOTE: fill the (view of the) slice: assigning would read a tuple element as a sequence
+                            assigned[idx, sel_slice].fill(bridging_values[idx]) #pylint: disable=E1136
 
                     # handle each row (going horizontally) in isolation
                     target_indexes = binary_transition(sel, axis=1)
@@ -3009,7 +3011,7 @@ class TypeBlocks(ContainerOperand):
                                 limit=limit,
                                 slice_condition=slice_condition
                                 ):
-                            assigned[i, target_slice] = value
+                            assigned[i, target_slice].fill(value)
 
                         # update counts from the last slice; this will have already been limited if necessary, but need to reflext contiguous values going into the next block; if slices does not go to edge; will identify as needing as reset
                         if target_slice is not None:
